@@ -33,8 +33,9 @@ SPECS_QUICK = [('genfail',), ('ok', True), ('ok', False),
                ('pair', True, False), ('pair', True, True), ('pair', False, False), ('pair', False, True)]
 SPECS_ALL = SPECS_QUICK + [('injfail', True), ('injfail', False)]
 
+# (file of the expected-pass program, file of the expected-fail program) as the translators name them
 FILENAMES = {'java': ('Main.java', 'Incorrect.java'), 'kotlin': ('program.kt', 'incorrect.kt'),
-             'groovy': ('Main.groovy', 'Incorrect.groovy'), 'scala': ('Main.scala', 'Incorrect.scala')}
+             'groovy': ('Main.groovy', 'incorrect.groovy'), 'scala': ('program.scala', 'incorrect.scala')}
 
 
 def error_text(lang, path):
